@@ -1,11 +1,11 @@
 #!/bin/sh
-# usage: tools/harvest_r3.sh <ID>...  - copies /tmp/wt3/<ID>/seed_out/mN into seeded/<ID>-r3mN and confirms each
+# usage: tools/harvest_r3.sh <ID>...  - copies /tmp/wt${ROUND:-3}/<ID>/seed_out/mN into seeded/<ID>-r${ROUND:-3}mN and confirms each
 cd "$(dirname "$0")/.."
 for id in "$@"; do
   for n in 1 2 3; do
-    src=/tmp/wt3/$id/seed_out/m$n
+    src=/tmp/wt${ROUND:-3}/$id/seed_out/m$n
     [ -f "$src/patch.diff" ] || { echo "missing $src"; continue; }
-    dst=seeded/$id-r3m$n
+    dst=seeded/$id-r${ROUND:-3}m$n
     mkdir -p "$dst"
     cp "$src/patch.diff" "$src/demo.py" "$src/meta.json" "$dst/"
     tools/confirm_seed.sh "$dst" | tail -1
